@@ -10,4 +10,15 @@ META = {
     },
 }
 
+META["C08"] = {
+    "text": "Property-based exploration with an exact byte oracle: the library's encoding of generated in-memory messages/headers must equal the reference deterministic encoder's output for the same abstract value (hence independent of map iteration and insertion order), be canonical, carry the protected bytes that were signed, and be closed under the decoder. Exploration is the right level for a for-all-values statement with a cheap executable oracle.",
+    "note": TRUST + " NaN/Inf float values are excluded where bytes are compared (the CBOR library re-encodes them as float16, a documented limit).",
+    "technique": "property-based testing (rapid): differential against an independent deterministic CBOR encoder + round-trip closure",
+}
+META["C02"] = {
+    "text": "Property-based exploration with an exact byte oracle: recording Signer/Verifier implementations capture ToBeSigned for constructed, decoded (any peer encoding) and raw-header messages; it must equal the Sig_structure built by the independent reference from the abstract message or from the received wire bytes. Self-consistent deviations that round-trip tests cannot see are visible because the oracle is independent.",
+    "note": TRUST,
+    "technique": "property-based testing (rapid): spy signer/verifier vs. reference Sig_structure builder; metamorphic tag/external/unprotected variation",
+}
+
 NOT_APPLICABLE = {}
